@@ -95,7 +95,12 @@ func runStreamCase(c streamCase) error {
 	r := rlib.NewRunner(cfg, streamSubs()...)
 	removed := map[string]bool{}
 	readd := false
-	for _, i := range c.Ops {
+	for k, i := range c.Ops {
+		if k > 0 && k == len(c.Ops)/2 {
+			// two subscribers join mid-history: their seeds are the contents now, with the stored change times
+			r.OpenSub(rlib.SubSpec{Backpressure: true})
+			r.OpenSub(rlib.SubSpec{Backpressure: true, ReadMask: &fieldmaskpb.FieldMask{Paths: []string{"c"}}})
+		}
 		okBefore := r.OKWrites
 		op := ops[i]
 		if err := r.Do(op); err != nil {
